@@ -15,9 +15,18 @@ CHECKS = {
   "TLC explores all interleavings of intern/gensym/duplicate over a family of <=3 interpreters sharing one table with a name pool containing generated-shaped names (Injective, FreshGensym), and validates histories recorded on a real family (Go API and script level) against the bijection/freshness monitor.",
   "only the relation name<->number is judged; root interpreter built with a small function table; Symtab.tla mirrors environment.go by hand",
   "TLA+ spec (Symtab); TLC exhaustive exploration + TLC trace validation of recorded executions"),
+ "C02": ("ZSem", "model_checking",
+  "A definitional interpreter of the core language written in TLA+ (ZSem) is the reference evaluator; TLC evaluates it on every program the harness ran on the real interpreter (all depth-2 nestings of the control forms with traced leaves, top level and tail positions; seeded random programs per feature slice with random layout) and compares value/error and the order of host calls.",
+  "only the fragment ZSem defines is judged (undefined outcomes and fuel exhaustion are skipped and counted); errors compared as 'some error'; programs are bounded in size",
+  "TLA+ reference semantics (ZSem); TLC trace validation of recorded executions"),
+ "C03": ("ZSem", "model_checking",
+  "ZSem models frames as heap objects with parent pointers and closures capturing their frame of creation; TLC validates programs over a tiny name pool (shadowing/capture collisions in almost every program; closures returned, stored, passed, collected in loops, called after their creator returned, tail calls) run on the real interpreter.",
+  "as C02; the scoping grammar is generated randomly (seeded), not exhaustively",
+  "TLA+ reference semantics (ZSem); TLC trace validation of recorded executions"),
 }
 
 ENGINES = [
+ {"name": "ZSem", "path": "spec/ZSem.tla spec/SemTrace.tla", "serves_properties": ["C02", "C03"], "kind_free_text": "TLA+ definitional interpreter (recursive operators) + trace specification, TLC"},
  {"name": "HashMap", "path": "spec/HashMap.tla spec/HashImpl.tla spec/MCHash.tla spec/HashTrace.tla", "serves_properties": ["C14"], "kind_free_text": "TLA+ state machine + refinement + trace specification, TLC"},
  {"name": "Symtab", "path": "spec/Symtab.tla spec/SymtabTrace.tla", "serves_properties": ["C19"], "kind_free_text": "TLA+ state machine + trace specification, TLC"},
 ]
